@@ -43,7 +43,9 @@ M = [
  ("m17b", ["C17", "C10"], "gen_schema.go", "\tif f.Kind == CustomKind {\n\t\treturn j.Id(\"GenSchema\"+f.Suffix).Call(j.Id(\"ctx\"), j.Id(f.i.WithPackage(SDK, \"Attribute\")).Values(d))\n\t}", "\tif f.Kind == CustomKind {\n\t\tdelete(d, j.Id(\"Sensitive\"))\n\t\treturn j.Id(\"GenSchema\"+f.Suffix).Call(j.Id(\"ctx\"), j.Id(f.i.WithPackage(SDK, \"Attribute\")).Values(d))\n\t}", "placeholder: see below"),
  ("m18a", ["C18"], "field.go", "\t\tf, err := BuildField(c)\n\t\tif err != nil {\n\t\t\treturn nil, trace.Wrap(err)\n\t\t}\n", "\t\tf, err := BuildField(c)\n\t\tif err != nil {\n\t\t\tcontinue\n\t\t}\n", "an unmappable field is silently skipped and the converter is still generated"),
  ("m18b", ["C18"], "plugin.go", "\t\t\tlog.WithError(err).Warningf(\"failed to build the message %v\", message.GetName())\n", "", "no diagnostic is logged for a skipped type"),
- ("m20a", ["C20"], "gen_copy_to.go", "\t\t\tj.Id(\"v.Null\").Op(\"=\").False(),\n\t\t\tj.Id(\"v.Value\").Op(\"=\").Id(f.i.WithType(f.GoElemTypeIndirect)).Parens(j.Op(\"*\").Add(j.Id(fieldName))),", "\t\t\tj.Id(\"v.Value\").Op(\"=\").Id(f.i.WithType(f.GoElemTypeIndirect)).Parens(j.Op(\"*\").Add(j.Id(fieldName))),", "pointer-backed attributes keep the Null flag of the freshly created null value"),
+ ("m20a", ["C20", "C09"], "gen_copy_to.go", "\t\t\tj.Id(\"v.Null\").Op(\"=\").False(),\n\t\t\tj.Id(\"v.Value\").Op(\"=\").Id(f.i.WithType(f.GoElemTypeIndirect)).Parens(j.Op(\"*\").Add(j.Id(fieldName))),", "\t\t\tj.Id(\"v.Value\").Op(\"=\").Id(f.i.WithType(f.GoElemTypeIndirect)).Parens(j.Op(\"*\").Add(j.Id(fieldName))),", "pointer-backed attributes never get Null cleared (equivalent on an empty target; only a refresh nil -> set shows it)"),
+ ("m20b", ["C20"], "gen_copy_to.go", "\t\t\t\t\tj.Id(\"Null\"):     j.True(),\n", "\t\t\t\t\tj.Id(\"Null\"):     j.False(),\n", "a nil list or map is rendered as a known empty collection instead of null"),
+ ("m20c", ["C20"], "gen_copy_to.go", "\t\tif f.IsPlaceholder {\n\t\t\tg.Id(\"v.Null\").Op(\"=\").True()\n\t\t\treturn\n\t\t}\n", "\t\tif f.IsPlaceholder {\n\t\t\tg.Id(\"v.Null\").Op(\"=\").False()\n\t\t\treturn\n\t\t}\n", "the placeholder attribute of an empty message is rendered non-null"),
 ]
 
 def main():
